@@ -435,6 +435,14 @@ func (rt *RT) mkResult(f *Fn, exec int, r Result, t reflect.Type, slot string, t
 		}
 		return v
 	}
+	if r.Host == "NS0" || r.Host == "NS1" {
+		// one element, so that a (wrongly) accepted flatten has something to submit
+		sl := reflect.MakeSlice(t, 1, 1)
+		if r.Host == "NS0" {
+			sl.Index(0).Set(reflect.ValueOf(&T0{}))
+		}
+		return sl
+	}
 	if r.Host != "" {
 		return reflect.Zero(t)
 	}
